@@ -1078,7 +1078,12 @@ func (p *Parser) parseClassElement() ClassElement {
 		if p.tt == OpenBraceToken {
 			prevYield, prevAwait, prevRetrn := p.yield, p.await, p.retrn
 			p.yield, p.await, p.retrn = false, true, false
-			elem := ClassElement{StaticBlock: p.parseBlockStmt("class static block")}
+			// a class static block is a function scope: var and function declarations do not leave it
+			blockStmt := &BlockStmt{}
+			parent := p.enterScope(&blockStmt.Scope, true)
+			blockStmt.List = p.parseStmtList("class static block")
+			p.exitScope(parent)
+			elem := ClassElement{StaticBlock: blockStmt}
 			p.yield, p.await, p.retrn = prevYield, prevAwait, prevRetrn
 			return elem
 		}
